@@ -1,16 +1,9 @@
 #!/bin/bash
-# Offline setup: warm the Go build cache for every harness (built against the current /repo).
+# Offline setup: warm the Go build cache by building every registered harness against /repo.
 cd "$(dirname "$0")"
-export GOFLAGS=-mod=mod GOPROXY=off GOSUMDB=off GOTOOLCHAIN=local
-export GOCACHE="${VERIF_GOCACHE:-/verif/.gocache}"
-mkdir -p .build
-go build -o .build/xform ./cmd/xform || exit 1
-for d in harness/*/; do
-  id=$(basename "$d")
-  B=".build/$id"; mkdir -p "$B/ov"
-  XARGS=()
-  [ -f "$d/xform.args" ] && XARGS=($(grep -v '^#' "$d/xform.args"))
-  .build/xform -repo /repo -out "$B/ov" -hooks "$PWD/hooks" "${XARGS[@]}" || exit 1
-  go build -tags verif -overlay "$B/ov/overlay.json" -o "$B/harness" "./$d" || exit 1
+rc=0
+for id in $(python3 -c "import json;print(' '.join(c['property_id'] for c in json.load(open('MANIFEST.json'))['checks']))"); do
+  VERIF_BUILD_ONLY=1 ./check "$id" || rc=1
 done
-echo setup ok
+[ $rc = 0 ] && echo "setup ok"
+exit $rc
